@@ -23,6 +23,8 @@ from .index import AnalysisError
 
 VERIF = os.path.dirname(os.path.dirname(os.path.abspath(__file__)))
 CACHE = os.path.join(VERIF, ".cache", "cfront")
+with open(__file__, "rb") as _fh:  # read once at import: the digest then describes the code that is loaded
+    _SELF_DIGEST = hashlib.sha1(_fh.read()).digest()
 
 
 def py_include() -> str:
@@ -83,6 +85,189 @@ def _returns(node, out):
             _returns(c, out)
 
 
+INCREF_NAMES = {"Py_INCREF", "Py_XINCREF", "Py_NewRef", "Py_XNewRef", "CPy_INCREF", "CPy_XINCREF", "CPy_INCREF_NO_IMM", "_Py_NewRef", "_Py_XNewRef", "Py_SETREF", "Py_XSETREF"}
+
+
+def _names_in(e, out: set) -> None:
+    if e.get("kind") == "DeclRefExpr":
+        nm = e.get("referencedDecl", {}).get("name")
+        if nm:
+            out.add(nm)
+    for c in e.get("inner", []) or []:
+        if isinstance(c, dict):
+            _names_in(c, out)
+
+
+def _value_source(e) -> str:
+    """What a pointer-valued expression is: call:<callee>, ref:<var>, NULL or other."""
+    if _is_null(e):
+        return "NULL"
+    s = _strip(e)
+    k = s.get("kind")
+    if k == "CallExpr" and s.get("inner"):
+        cal = _strip(s["inner"][0])
+        return "call:" + cal.get("referencedDecl", {}).get("name", "?")
+    if k == "DeclRefExpr":
+        return "ref:" + s.get("referencedDecl", {}).get("name", "?")
+    if k == "ConditionalOperator" and len(s.get("inner", [])) == 3:
+        return "cond:" + _value_source(s["inner"][1]) + "|" + _value_source(s["inner"][2])
+    if k == "ArraySubscriptExpr" and s.get("inner"):
+        base = _strip(s["inner"][0])
+        if base.get("kind") == "MemberExpr" and base.get("name") == "ob_item":
+            return "borrowed:ob_item"  # PyList_GET_ITEM / PyTuple_GET_ITEM after macro expansion
+    return "other"
+
+
+def _ownership_facts(node, inc: set, asg: dict) -> None:
+    """Names passed to an inc-ref function anywhere in the body; for each local pointer variable,
+    the sources it is assigned from."""
+    k = node.get("kind")
+    if k == "CallExpr" and node.get("inner"):
+        cal = _strip(node["inner"][0])
+        if cal.get("referencedDecl", {}).get("name") in INCREF_NAMES:
+            for a in node["inner"][1:]:
+                _names_in(a, inc)
+    elif k == "VarDecl":
+        init = [c for c in node.get("inner", []) or [] if isinstance(c, dict) and c.get("kind") not in ("FullComment",)]
+        if init and "*" in node.get("type", {}).get("qualType", ""):
+            asg.setdefault(node.get("name", "?"), set()).add(_value_source(init[-1]))
+    elif k == "BinaryOperator" and node.get("opcode") == "=" and len(node.get("inner", [])) == 2:
+        lhs = _strip(node["inner"][0])
+        if lhs.get("kind") == "DeclRefExpr" and "*" in node.get("type", {}).get("qualType", ""):
+            asg.setdefault(lhs.get("referencedDecl", {}).get("name", "?"), set()).add(_value_source(node["inner"][1]))
+    for c in node.get("inner", []) or []:
+        if isinstance(c, dict):
+            _ownership_facts(c, inc, asg)
+
+
+STEALING_APIS = {"PyList_SET_ITEM": 2, "PyTuple_SET_ITEM": 2, "PyList_SetItem": 2, "PyTuple_SetItem": 2, "PyStructSequence_SET_ITEM": 2, "PyStructSequence_SetItem": 2}
+DECREF_NAMES = {"Py_DECREF", "Py_XDECREF", "CPy_DECREF", "CPy_XDECREF", "CPy_DecRef", "CPy_XDecRef", "Py_CLEAR", "CPy_DECREF_NO_IMM", "_Py_DECREF_SPECIALIZED"}
+
+
+def _consumes(node, pname: str) -> bool:
+    """Does evaluating this expression / declaration give away the reference held in parameter pname?"""
+    k = node.get("kind")
+    if k == "CallExpr" and node.get("inner"):
+        cal = _strip(node["inner"][0]).get("referencedDecl", {}).get("name")
+        args = node["inner"][1:]
+        if cal in DECREF_NAMES and args:
+            s0 = _strip(args[0])
+            if s0.get("kind") == "DeclRefExpr" and s0.get("referencedDecl", {}).get("name") == pname:
+                return True
+        if cal in STEALING_APIS and len(args) > STEALING_APIS[cal]:
+            s0 = _strip(args[STEALING_APIS[cal]])
+            if s0.get("kind") == "DeclRefExpr" and s0.get("referencedDecl", {}).get("name") == pname:
+                return True
+    if k == "BinaryOperator" and node.get("opcode") == "=" and len(node.get("inner", [])) == 2:
+        lhs, rhs = _strip(node["inner"][0]), _strip(node["inner"][1])
+        if rhs.get("kind") == "DeclRefExpr" and rhs.get("referencedDecl", {}).get("name") == pname and lhs.get("kind") in ("MemberExpr", "ArraySubscriptExpr", "UnaryOperator"):
+            return True  # stored into an object / buffer slot: the container owns it now
+    for c in node.get("inner", []) or []:
+        if isinstance(c, dict) and c.get("kind") not in ("CompoundStmt", "IfStmt", "ReturnStmt", "ForStmt", "WhileStmt", "DoStmt", "SwitchStmt") and _consumes(c, pname):
+            return True
+    return False
+
+
+def _consumption_at_returns(body, pname: str):
+    """Structured walk: for every return statement, may the reference in `pname` still be unconsumed?
+    Returns (list of {line, value, may_be_unconsumed}, structured: bool)."""
+    out = []
+    ok = [True]
+
+    def walk(st, state: frozenset) -> frozenset | None:
+        """state ⊆ {'N','C'}; returns the state after st, or None if st never completes normally."""
+        k = st.get("kind")
+        kids = [c for c in st.get("inner", []) or [] if isinstance(c, dict)]
+        if k == "CompoundStmt":
+            for c in kids:
+                state = walk(c, state)
+                if state is None:
+                    return None
+            return state
+        if k == "ReturnStmt":
+            cur = state
+            if kids and _consumes(kids[0], pname):
+                cur = frozenset("C")
+            v = _strip(kids[0]) if kids else None
+            if v is not None and v.get("kind") == "DeclRefExpr" and v.get("referencedDecl", {}).get("name") == pname:
+                cur = frozenset("C")  # handed back to the caller as the result
+            out.append({"line": st.get("range", {}).get("begin", {}).get("line"), "value": _value_source(kids[0]) if kids else "void", "may_be_unconsumed": "N" in cur})
+            return None
+        if k == "IfStmt":
+            cond = kids[0] if kids else None
+            if cond is not None and _consumes(cond, pname):
+                state = frozenset("C")
+            branches = kids[1:]
+            res = []
+            for b in branches[:2]:
+                r = walk(b, state)
+                if r is not None:
+                    res.append(r)
+            if len(branches) < 2:
+                res.append(state)
+            if not res:
+                return None
+            acc = frozenset()
+            for r in res:
+                acc |= r
+            return acc
+        if k in ("ForStmt", "WhileStmt", "DoStmt"):
+            body_st = kids[-1] if kids else None
+            after = state
+            if body_st is not None:
+                r = walk(body_st, state)
+                if r is not None:
+                    after = after | r
+            return after
+        if k in ("GotoStmt", "LabelStmt", "SwitchStmt", "IndirectGotoStmt"):
+            ok[0] = False
+            return state
+        if k in ("BreakStmt", "ContinueStmt", "NullStmt"):
+            return state
+        # expression statement / declaration
+        if _consumes(st, pname):
+            return frozenset("C")
+        return state
+    end = walk(body, frozenset("N"))
+    if end is not None:
+        out.append({"line": body.get("range", {}).get("end", {}).get("line"), "value": "end of function", "may_be_unconsumed": "N" in end})
+    return out, ok[0]
+
+
+def _given_away(node, pname: str) -> str | None:
+    """How the function hands the reference in `pname` to someone else (stealing API / slot store), if it does."""
+    k = node.get("kind")
+    if k == "CallExpr" and node.get("inner"):
+        cal = _strip(node["inner"][0]).get("referencedDecl", {}).get("name")
+        args = node["inner"][1:]
+        if cal in STEALING_APIS and len(args) > STEALING_APIS[cal]:
+            s0 = _strip(args[STEALING_APIS[cal]])
+            if s0.get("kind") == "DeclRefExpr" and s0.get("referencedDecl", {}).get("name") == pname:
+                return f"{cal}(..., {pname})"
+    if k == "BinaryOperator" and node.get("opcode") == "=" and len(node.get("inner", [])) == 2:
+        lhs, rhs = _strip(node["inner"][0]), _strip(node["inner"][1])
+        if rhs.get("kind") == "DeclRefExpr" and rhs.get("referencedDecl", {}).get("name") == pname and lhs.get("kind") in ("MemberExpr", "ArraySubscriptExpr"):
+            return f"store of {pname} into a {'field' if lhs.get('kind') == 'MemberExpr' else 'slot'}"
+    for c in node.get("inner", []) or []:
+        if isinstance(c, dict):
+            r = _given_away(c, pname)
+            if r:
+                return r
+    return None
+
+
+def _increfed(node, pname: str) -> bool:
+    if node.get("kind") == "CallExpr" and node.get("inner"):
+        cal = _strip(node["inner"][0]).get("referencedDecl", {}).get("name")
+        if cal in INCREF_NAMES:
+            names: set = set()
+            for a in node["inner"][1:]:
+                _names_in(a, names)
+            if pname in names:
+                return True
+    return any(_increfed(c, pname) for c in node.get("inner", []) or [] if isinstance(c, dict))
+
+
 def _reduce(doc: dict) -> dict:
     res = {}
     for n in doc.get("inner", []):
@@ -101,6 +286,21 @@ def _reduce(doc: dict) -> dict:
             out = []
             _returns(body[0], out)
             ent["returns"] = sorted({_classify(e, ret) for e in out})
+            pnames = [c.get("name") for c in n.get("inner", []) if c.get("kind") == "ParmVarDecl"]
+            cons = {}
+            for pn, pt in zip(pnames, params):
+                if pn and "*" in pt and "PyObject" in pt:
+                    rets, structured = _consumption_at_returns(body[0], pn)
+                    cons[pn] = {"returns": rets, "structured": structured, "given_away": _given_away(body[0], pn), "increfed": _increfed(body[0], pn)}
+            ent["param_names"] = pnames
+            ent["consumption"] = cons
+            if "*" in ret:
+                inc: set[str] = set()
+                asg: dict[str, set[str]] = {}
+                _ownership_facts(body[0], inc, asg)
+                ent["incref_args"] = sorted(inc)
+                ent["return_sources"] = sorted({_value_source(e) for e in out if e is not None})
+                ent["assigned_from"] = {k: sorted(v) for k, v in asg.items()}
         if name not in res or (ent["has_body"] and not res[name]["has_body"]):
             res[name] = ent
     return res
@@ -136,8 +336,7 @@ def lib_rt_functions(repo_root: str) -> tuple[dict, dict]:
             # relative names: scratch copies of an unchanged lib-rt share one cache entry
             h.update(os.path.relpath(f, librt).encode() + b"\0" + fh.read())
     h.update(subprocess.run([clang, "--version"], capture_output=True).stdout)
-    with open(__file__, "rb") as fh:
-        h.update(fh.read())
+    h.update(_SELF_DIGEST)
     key = h.hexdigest()
     cpath = os.path.join(CACHE, key + ".json")
     if os.path.exists(cpath):
@@ -216,8 +415,7 @@ def function_bodies(repo_root: str, header: str, names: list[str]) -> dict[str, 
         with open(f, "rb") as fh:
             h.update(os.path.relpath(f, librt).encode() + b"\0" + fh.read())
     h.update(("|".join(names) + header).encode())
-    with open(__file__, "rb") as fh:
-        h.update(fh.read())
+    h.update(_SELF_DIGEST)
     cpath = os.path.join(CACHE, "bodies_" + h.hexdigest() + ".json")
     if os.path.exists(cpath):
         with open(cpath) as fh:
